@@ -410,7 +410,24 @@ def _post_loop(engine, st, ctx, out):
     return [("the loop ends only when the executor is gone, shut down, or the interpreter exits", "PC", z3.BoolVal(bool(why)), ["C11", "C12"])]
 
 
+def _setup_pf_resolved_nested(engine, st):
+    from .base import reentrant_cancel_context
+    args, kw, ctx = _setup_pf_resolved(engine, st)
+    st.assume(ctx["d_cancelled"])          # synchronous activation from inside delegate.cancel(), called by our own cancel()
+    st.assume(Val.is_intv(st.get("_me_cancelling", ctx["sid"])))
+    reentrant_cancel_context(engine, st, ctx["me"])
+    return args, kw, ctx
+
+
+def _post_pf_resolved_nested(engine, st, ctx, out):
+    return [("no exception escapes the done-callback", "EX", not isinstance(out, Raise), ["C18", "C04"]),
+            ("nested in own cancel(): the polled future ends cancelled and nothing is registered for polling", "PC",
+             z3.And(st.cancelled(ctx["sid"]), z3.BoolVal(not [e for e in st.trace if e.kind == "repo-call" and e.meth.endswith("._register_poll")])), ["C04", "C03", "C08"])]
+
+
 UNITS += [
+    Unit("PollFuture._delegate_resolved[nested in own cancel()]", "poll.PollFuture._delegate_resolved", ["C04", "C02", "C03", "C08", "C18"], _setup_pf_resolved_nested,
+         _post_pf_resolved_nested, cfg=lambda: (lambda c: (c.contracts.pop("more_executors._impl.poll.PollFuture._delegate_resolved"), c)[1])(_cfg_fut()), self_cls="PollFuture"),
     Unit("PollFuture.__init__", "poll.PollFuture.__init__", ["C08", "C03", "C12", "C18"], _setup_pf_init, _post_pf_init, cfg=_cfg_fut, self_cls="PollFuture"),
     Unit("PollFuture._delegate_resolved", "poll.PollFuture._delegate_resolved", ["C08", "C01", "C03", "C18"], _setup_pf_resolved, _post_pf_resolved,
          cfg=lambda: (lambda c: (c.contracts.pop("more_executors._impl.poll.PollFuture._delegate_resolved"), c)[1])(_cfg_fut()), self_cls="PollFuture"),
